@@ -28,7 +28,6 @@ UNBUILT = {
  "C09": K_ARTIFACT + ". The arithmetic it uses (Lot, even split) is under contract in C08",
  "C16": "not decided as stated (whole-chain totality): panic-freedom obligations are discharged for the functions under contract in C25/C26 (varint, Runestone::integers), C27 (from_value, pointer), C31 (parsers), C35 (decoders of stored values) and C10/C08 (mint, update, unallocated never error), but envelope parsing, Properties::from_cbor, index_inscriptions and index_runes are not under contract, so the property as a whole is not claimed",
  "C20": K_ORD + "; TransactionBuilder is ~1000 lines over BTreeMap/Vec state with f64 fee arithmetic",
- "C37": "not decided: Kani 0.68 aborts on any read of the discriminant of ord's Event enum (same internal compiler error as for Artifact, DESIGN §0.6), so a harness can count events but not inspect them; the emitting functions index_runes / index_inscriptions are not under contract either",
 }
 
 TEXT = json.load(open(os.path.join(VERIF, "tools/manifest_text.json")))
